@@ -31,14 +31,23 @@ func hasLabel(have []string, want map[string]bool) bool {
 	return false
 }
 
+// familyLabels: the key label of a family is its first label; an ensures clause belongs to the family iff it carries
+// that key label (further labels are tags used for property selection only).
 func familyLabels(ct *Contract) map[string]bool {
 	m := map[string]bool{}
 	for _, f := range ct.Families {
-		for _, l := range f.Labels {
-			m[l] = true
+		if len(f.Labels) > 0 {
+			m[f.Labels[0]] = true
 		}
 	}
 	return m
+}
+
+func famKey(f *FamilySpec) map[string]bool {
+	if len(f.Labels) == 0 {
+		return map[string]bool{}
+	}
+	return map[string]bool{f.Labels[0]: true}
 }
 
 // enter creates the initial path of a function: parameters and receiver are symbols in_<name>.
@@ -465,10 +474,7 @@ func (u *Universe) familyExhaustive(fi *FuncInfo, fam *FamilySpec) []*Oblig {
 	}
 	p.oblig("exhaustive", fmt.Sprintf("%s#family:%s:exhaustive", fi.Key, fam.Name), tAnd(goals...), fi.Decl.Pos(), fam.Labels...)
 	// every ensures owned by the family must be guarded by the family's guard (so that !guard is vacuous)
-	fl := map[string]bool{}
-	for _, l := range fam.Labels {
-		fl[l] = true
-	}
+	fl := famKey(fam)
 	for i, en := range fi.Contract.Ensures {
 		if !hasLabel(en.Labels, fl) {
 			continue
@@ -561,10 +567,7 @@ func (t *FamTemplate) defText() string {
 
 func (u *Universe) familyTemplate(fi *FuncInfo, fam *FamilySpec, st *SpecTables) (*FamTemplate, error) {
 	t := &FamTemplate{Name: "fam_" + sanitize(fi.Key) + "_" + sanitize(fam.Name), Fn: fi, Fam: fam}
-	labels := map[string]bool{}
-	for _, l := range fam.Labels {
-		labels[l] = true
-	}
+	labels := famKey(fam)
 	c, p, fr, env := u.enter(fi)
 	c.Fam = fam
 	t.Ctx = c
